@@ -65,6 +65,9 @@ CHECKS = {
  "C14": dict(engine="seqx-world", cat="model_checking", tech=SEQ_TECH,
   text="For three canonical pre-histories (memtable only / one L0 table / L1 + L0 + memtable), every mid-history of up to m operations from {commit, delete, flush, compaction} between checkpoint and restore and every post-history of up to p operations from {commit, flush, compaction, reopen} after the restore is executed on the real store per option set (plain, value log, versioning, version index, no cache, tiny blocks); after the restore and after every later step all reads are compared with the map model at the checkpoint plus the post-restore commits, and the checkpoint directory is opened on its own and compared with the model at the checkpoint. Background tasks queued before the restore (deferred WAL clean-up) are left pending across it.",
   note="Single-threaded driver (no commit in flight during checkpoint/restore); exhaustive within (m, p) and the fixed option sets; history/time-travel reads after a restore are judged by C10.", ref="DESIGN.md §5 C14"),
+ "C19": dict(engine="seqx-world", cat="model_checking", tech=SEQ_TECH,
+  text="All operation lists up to a length bound over {open by opener 1/2, close, drop (the runtime is then run so that the Drop-spawned close completes), a child process opens the directory, SIGKILL the child}, generated against the ownership state machine, are executed on the real store: at most one opener ever holds the directory, a refused open (in-process or cross-process) returns an error and leaves every file incl. LOCK byte-identical, and after close / drop / death of the owner the next open succeeds and sees the committed data.",
+  note="Exhaustive within the length bound; an open attempt racing with the individual steps of a concurrent close() is not explored (close() is not run under the scheduler).", ref="DESIGN.md §5 C19"),
 }
 
 NOT_YET = {}
